@@ -29,6 +29,8 @@ def plan(tier, seed):
   specs += [{'shard': 'ossl-' + c, 'curve': c, 'n': 600 if q else 4000}
             for c in gen.NAMED]
   specs += [{'shard': 'cross-%d' % i, 'n': 60 if q else 600} for i in range(2)]
+  specs += [{'shard': 'incheck-%d' % i, 'n': 6 if q else 40, 'weight': 3}
+            for i in range(3)]
   specs.append({'shard': 'conv', 'n': 2000 if q else 40000})
   return specs
 
@@ -134,6 +136,84 @@ def run_cross(ctx, spec):
         _relation(ctx, curve, sig, d, k, 'after a mixed-curve Check() call')
   try:
     ctx.sample({'digest_len': len(h), 'curves': curves})
+  except NameError:
+    pass
+
+
+def run_incheck(ctx, spec):
+  """The (a, b) pairs the nonce checks derive *inside* Check(): a contract on
+  hnp.HiddenNumberProblem / HiddenNumberProblemForCurve demands that all pairs
+  of one call belong to one issuer of the batch and reproduce its nonces."""
+  from paranoid_crypto.lib import ecdsa_sig_checks as sc
+  from paranoid_crypto.lib import hidden_number_problem as hnp
+  rng = ctx.rng('incheck')
+  truth = {}     # curve order -> list of (d, set of nonces)
+
+  def check_pairs(a, b, n, what):
+    ctx.count('evaluations')
+    ctx.count('contract:lattice-input-pairs')
+    cands = truth.get(int(n), [])
+    ok = any(all((int(x) + int(y) * d) % n in ks for x, y in zip(a, b)
+                 if (int(x), int(y)) != (0, 1)) for d, ks in cands)
+    if cands and not ok:
+      ctx.violation('derived-pairs-do-not-belong-to-one-issuer@%s' % what,
+                    '%s received %d (a, b) pairs that do not satisfy k = a + '
+                    'b*d for the nonces of any single issuer of the batch' % (
+                        what, len(a)), {'n': int(n), 'pairs': len(a)})
+
+  orig_hnp, orig_curve = hnp.HiddenNumberProblem, hnp.HiddenNumberProblemForCurve
+
+  def w_hnp(a, b, w, n, bias):
+    check_pairs(a, b, n, 'HiddenNumberProblem')
+    return orig_hnp(a, b, w, n, bias)
+
+  def w_curve(a, b, curve_type, lcg, flags):
+    from paranoid_crypto.lib import ec_util
+    check_pairs(a, b, ec_util.CURVE_FACTORY[curve_type].n,
+                'HiddenNumberProblemForCurve')
+    return orig_curve(a, b, curve_type, lcg, flags)
+  hnp.HiddenNumberProblem, hnp.HiddenNumberProblemForCurve = w_hnp, w_curve
+  try:
+    checks = [getattr(sc, c)() for c in (
+        'CheckNonceMSB', 'CheckNonceCommonPrefix', 'CheckNonceCommonPostfix',
+        'CheckNonceGeneralized', 'CheckLCGNonceGMP',
+        'CheckLCGNonceJavaUtilRandom')]
+    for i in range(spec['n']):
+      if not ctx.want('i%d' % i):
+        continue
+      curve = rng.choice(['CURVE_SECP256R1', 'CURVE_SECP256K1',
+                          'CURVE_SECP224R1', 'CURVE_SECP384R1'])
+      n = gen.model_curve(curve).n
+      truth.clear()
+      batch = []
+      for who in range(rng.randint(2, 3)):
+        d = rng.below(n - 1) + 1
+        pub = sigs.mulg(curve, d)
+        ks = sigs.nonces_msb(rng, n, 64, 6) if who == 1 else \
+            sigs.nonces_uniform(rng, n, rng.randint(1, 5))
+        truth.setdefault(int(n), []).append((d, set(ks)))
+        mine = sigs.sign_many(rng, curve, d, pub, ks, rng.choice([20, 32, 64]))
+        # exact duplicates of one signature (de-duplicated by the checks)
+        if mine and rng.chance(2, 3):
+          for _ in range(rng.randint(1, 5)):
+            dup = type(mine[0])()
+            dup.CopyFrom(mine[0])
+            mine.append(dup)
+        batch.append(mine)
+      if rng.chance(1, 2):
+        batch.reverse()
+      flat = [s_ for m in batch for s_ in m]
+      if i % 3 == 0:
+        rng.shuffle(flat)
+      ctx.distinct('incheck', curve, i)
+      for chk in checks:
+        chk.Check([type(s_)().FromString(s_.SerializeToString())
+                   for s_ in flat])
+  finally:
+    hnp.HiddenNumberProblem, hnp.HiddenNumberProblemForCurve = orig_hnp, \
+        orig_curve
+  try:
+    ctx.sample({'curve': curve, 'issuers': len(batch), 'signatures': len(flat)})
   except NameError:
     pass
 
@@ -292,6 +372,8 @@ def run(ctx, spec):
     run_ossl(ctx, spec)
   elif s.startswith('cross'):
     run_cross(ctx, spec)
+  elif s.startswith('incheck'):
+    run_incheck(ctx, spec)
   else:
     run_conv(ctx, spec)
 
@@ -300,6 +382,6 @@ def finalize(agg, tier):
   c = agg['counters']
   need = ['hashlen_vs_order:longer', 'hashlen_vs_order:equal',
           'hashlen_vs_order:shorter', 'openssl_signatures',
-          'same_digest_on_several_curves',
+          'same_digest_on_several_curves', 'contract:lattice-input-pairs',
           'rfc6979_nonces_compared']
   return [], ['reach counter %s is zero' % k for k in need if not c.get(k)]
